@@ -329,7 +329,8 @@ type runState struct {
 	maxHRS     *hrs
 	maxIdx     int
 	afterCrash bool
-	tainted    bool // a signature was returned that is not in the state file
+	tainted    bool         // a signature was returned that is not in the state file, after a failed save
+	failedSave map[hrs]bool // HRS for which the signer produced a signature but the call returned an error (save refused / I/O error)
 }
 
 func (rs *runState) witness(extra ...any) map[string]any {
@@ -405,9 +406,16 @@ func (rs *runState) persisted(i int, q req, sb []byte) {
 		rs.c.Count("returned_signature_found_in_state_file", 1)
 		return
 	}
-	rs.tainted = true
+	if rs.failedSave[q.hrs()] {
+		// known mechanism: FileState.Update changed the in-memory state, save() failed, the error was
+		// returned - and this later request for the same HRS is answered from the in-memory state.
+		rs.tainted = true
+		rs.viol("returned-signature-not-persisted:after-failed-save", rs.witness("index", i, "state_file", string(raw)),
+			"request %d %s returned a signature, but the state file holds height=%s round=%s step=%d: an earlier save for this HRS failed (error returned) and left the in-memory state updated, so the signature returned now was never persisted", i, q, f.Height, f.Round, f.Step)
+		return
+	}
 	rs.viol("returned-signature-not-persisted", rs.witness("index", i, "state_file", string(raw)),
-		"request %d %s returned a signature, but the state file holds height=%s round=%s step=%d: the signature returned is not persisted (an earlier save for this HRS failed and left the in-memory state updated)", i, q, f.Height, f.Round, f.Step)
+		"request %d %s returned a signature, but the state file holds height=%s round=%s step=%d", i, q, f.Height, f.Round, f.Step)
 }
 
 func (rs *runState) judge(i int, q req, msg signable, sig []byte) {
@@ -554,6 +562,10 @@ func (rs *runState) execute() {
 		if deliver {
 			switch {
 			case err != nil:
+				if signerInvoked {
+					rs.failedSave[q.hrs()] = true
+					c.Count("signature_produced_but_error_returned", 1)
+				}
 				e.Outcome = "error: " + err.Error()
 				c.Count("rejected_"+q.Class, 1)
 				c.Count("rejected:"+errClass(err), 1)
@@ -629,7 +641,7 @@ func (rn *runner) runPlan(seqDir string, seq []req, plan []int) {
 	rs := &runState{c: rn.c, seq: seq, plan: plan, dir: dir,
 		keyPath:   filepath.Join(seqDir, "priv_validator_key.json"),
 		statePath: filepath.Join(dir, "priv_validator_state.json"),
-		signed:    map[hrs]*firstSig{}}
+		signed:    map[hrs]*firstSig{}, failedSave: map[hrs]bool{}}
 	rs.execute()
 }
 
